@@ -51,6 +51,9 @@ pub enum E2Cmd {
     Inspect,
     /// ask server i to gossip with j now (ChitchatHandle::gossip)
     GossipCmd { i: usize, j: usize },
+    /// faults stop: heal, no loss; every server that still runs must bring its copy of every
+    /// running member it knows to the owner's max version within `rounds` gossip intervals
+    Quiesce { rounds: u64 },
 }
 
 enum Inbox {
@@ -280,7 +283,7 @@ struct Run {
 }
 
 fn viol(step: usize, code: &str, detail: String) -> Violation {
-    let prop = if code.starts_with("C17") { "C17" } else { "C19" };
+    let prop = if code.starts_with("C17") { "C17" } else if code.starts_with("C01") { "C01" } else { "C19" };
     Violation { property: prop.into(), code: code.into(), step, detail, finding: String::new() }
 }
 
@@ -603,6 +606,35 @@ impl Run {
                 }
             }
             E2Cmd::Inspect => self.inspect().await,
+            E2Cmd::Quiesce { rounds } => {
+                {
+                    let mut net = self.net.lock().unwrap();
+                    net.partitions.clear();
+                    net.drop_pct = 0;
+                    net.dup_pct = 0;
+                    net.send_err_pct = 0;
+                    net.max_delay_ms = 5;
+                    net.fail_next.clear();
+                    net.stall_next.clear();
+                }
+                let mut lag = String::new();
+                let mut done = 0;
+                while done < *rounds {
+                    let t = self.now() + 5 * self.cfg.interval_ms;
+                    advance_to(&self.net, t).await;
+                    done += 5;
+                    lag = self.lagging().await;
+                    if lag.is_empty() {
+                        break;
+                    }
+                }
+                self.net.lock().unwrap().stats.max("max_e2_quiesce_rounds", done);
+                self.nontrivial = true;
+                if !lag.is_empty() {
+                    return Err(viol(self.step, "C01.e2_not_converged", format!("after {done} loss-free gossip intervals on the real server loop: {lag}")));
+                }
+                Ok(())
+            }
             E2Cmd::GossipCmd { i, j } => {
                 if let (Some(s), true) = (self.srv.get(*i), *j < n) {
                     if !s.ended {
@@ -615,6 +647,43 @@ impl Run {
                 Ok(())
             }
         }
+    }
+
+    /// Some running server's copy of a running member it knows is behind the owner.
+    async fn lagging(&mut self) -> String {
+        let mut own: Vec<Option<(ChitchatId, u64)>> = Vec::new();
+        for s in &self.srv {
+            if s.ended || s.handle.is_none() {
+                own.push(None);
+                continue;
+            }
+            let h = s.handle.as_ref().unwrap();
+            let r = h.with_chitchat(|c| (c.self_chitchat_id().clone(), c.self_node_state().max_version())).await;
+            own.push(Some(r));
+        }
+        for (i, s) in self.srv.iter().enumerate() {
+            if s.ended || s.handle.is_none() {
+                continue;
+            }
+            let h = s.handle.as_ref().unwrap();
+            let targets: Vec<(ChitchatId, u64)> = own.iter().flatten().cloned().collect();
+            let bad = h
+                .with_chitchat(|c| {
+                    for (id, mv) in &targets {
+                        if let Some(ns) = c.node_state(id) {
+                            if ns.max_version() != *mv {
+                                return Some(format!("copy of {} at max version {}, owner at {}", id.node_id, ns.max_version(), mv));
+                            }
+                        }
+                    }
+                    None
+                })
+                .await;
+            if let Some(b) = bad {
+                return format!("server {i}: {b}");
+            }
+        }
+        String::new()
     }
 
     /// After a timeout-based wait the paused clock has moved without `advance_to`: bring the
@@ -685,6 +754,10 @@ fn gen_cmds(seed: u64) -> (E2Cfg, Vec<E2Cmd>) {
     }
     cmds.push(E2Cmd::Advance { ms: 2 * cfg.interval_ms });
     cmds.push(E2Cmd::Inspect);
+    if r.chance(0.5) {
+        cmds.push(E2Cmd::Quiesce { rounds: 200 });
+        cmds.push(E2Cmd::Inspect);
+    }
     (cfg, cmds)
 }
 
